@@ -19,9 +19,9 @@ import (
 	"context"
 	"encoding/json"
 	"fmt"
-	"reflect"
 	"github.com/golang/protobuf/ptypes/wrappers"
 	"mosn.io/api"
+	"reflect"
 	"sort"
 	"strings"
 	"sync"
